@@ -118,7 +118,7 @@ Init ==
       [] Dom = "exh_quick" -> InitPlans(3, {"all", "event", "stop"}, {1, 2}) \/ InitPlans(3, {"all", "event"}, {3, 4, 5})
       [] Dom = "replay_quick" -> InitPlans(3, {"all", "stop"}, {1}) \/ InitPlans(2, {"all", "event", "stop"}, {2, 5})
       [] Dom = "exh_thorough" -> InitPlans(3, AllNames, {1, 2, 3, 4, 5})
-      [] Dom = "replay_thorough" -> InitPlans(3, AllNames, {1, 2, 4}) \/ InitPlans(2, AllNames, {3, 5, 6})
+      [] Dom = "replay_thorough" -> InitPlans(3, AllNames, {1}) \/ InitPlans(3, {"all", "event", "stop"}, {2, 4}) \/ InitPlans(2, AllNames, {3, 5, 6})
 
 
 ----------------------------------------------------------------------------
@@ -217,20 +217,24 @@ Wants(f, i) == Matches(cfg.names[f], emitted[i].kind)
 \* callbacks that raised while processing document i (they were invoked with it and their script says raise)
 RaisedOn(i) == {f \in Cbs : i \in cfg.raise[f] /\ i \in Range(recv[f])}
 
+\* (recv and emitted only ever grow, so what holds for them when the call has ended held in every earlier state too:
+\* the delivery invariants are evaluated on the final state of each behaviour, which keeps TLC's cost per state low)
+Ended == phase = "done"
+
 \* exactly once, in emission order, only documents of the subscribed kinds
 C19_OnceInOrder ==
-    \A f \in Cbs : /\ \A a, b \in DOMAIN recv[f] : a < b => recv[f][a] < recv[f][b]
+    Ended => \A f \in Cbs : /\ \A a, b \in DOMAIN recv[f] : a < b => recv[f][a] < recv[f][b]
                    /\ \A a \in DOMAIN recv[f] : recv[f][a] \in Docs /\ Wants(f, recv[f][a])
 
 \* callbacks are invoked in subscription order
 C19_InvocationOrder == \A k \in DOMAIN out : \A a, b \in DOMAIN out[k].calls : a < b => out[k].calls[a] < out[k].calls[b]
 
 \* with exceptions ignored every callback receives every document of its kinds
-C19_IgnoreDeliversAll == cfg.ignore => \A f \in Cbs : \A i \in Docs : Wants(f, i) => i \in Range(recv[f])
+C19_IgnoreDeliversAll == (Ended /\ cfg.ignore) => \A f \in Cbs : \A i \in Docs : Wants(f, i) => i \in Range(recv[f])
 
 \* otherwise a callback misses a document of its kinds only when an earlier-subscribed callback raised on it
 C19_PropagateDelivers ==
-    ~cfg.ignore => \A f \in Cbs : \A i \in Docs :
+    (Ended /\ ~cfg.ignore) => \A f \in Cbs : \A i \in Docs :
         (Wants(f, i) /\ i \notin Range(recv[f])) => \E g \in RaisedOn(i) : g < f
 
 \* with exceptions ignored the plan is not disturbed: it runs to completion, the call returns, all runs 'success'
